@@ -8,6 +8,7 @@ import (
 	"log/slog"
 	"reflect"
 	"sort"
+	"strings"
 	"sync"
 
 	"github.com/apache/arrow-go/v18/arrow"
@@ -312,8 +313,7 @@ func (s *Server) checkProtocolVersion(clientVersion string, present bool) *Proto
 				"non-VGI client connecting to a VGI worker.",
 		}
 	}
-	major, minor, _, err := parseSemver(clientVersion)
-	if err != nil {
+	if _, _, _, err := parseSemver(clientVersion); err != nil {
 		return &ProtocolVersionError{
 			Message: "VGI client/worker protocol_version mismatch.\n" +
 				"  Client: " + clientVersion + "\n" +
@@ -322,12 +322,20 @@ func (s *Server) checkProtocolVersion(clientVersion string, present bool) *Proto
 				"Expected canonical semver MAJOR.MINOR.PATCH.",
 		}
 	}
-	serverMajor, serverMinor := s.protocolVersionParts[0], s.protocolVersionParts[1]
-	if major == serverMajor && minor == serverMinor {
+	// Compare the components as canonical digit strings, not as the parsed
+	// ints: a component beyond the int range saturates in parseSemver, so two
+	// different huge majors (or minors) would otherwise compare equal and a
+	// mismatched client would be admitted. Both strings are canonical here
+	// (parseSemver accepted them), so compareSemverComponent is exact.
+	clientParts := strings.SplitN(clientVersion, ".", 3)
+	serverParts := strings.SplitN(s.protocolVersion, ".", 3)
+	majorCmp := compareSemverComponent(clientParts[0], serverParts[0])
+	minorCmp := compareSemverComponent(clientParts[1], serverParts[1])
+	if majorCmp == 0 && minorCmp == 0 {
 		return nil
 	}
 	var direction string
-	if major < serverMajor || (major == serverMajor && minor < serverMinor) {
+	if majorCmp < 0 || (majorCmp == 0 && minorCmp < 0) {
 		direction = "client is too old; upgrade the VGI extension/client to a " +
 			"version supporting protocol_version " + s.protocolVersion + "."
 	} else {
